@@ -1,5 +1,6 @@
 import ErgVerif.C16.Proofs
 import ErgVerif.Gen.C16
+import ErgVerif.Gen.C16Written
 /-!
 # C16 — Opcode and magic-number tables match each CPython version
 
@@ -9,6 +10,66 @@ theorems. Every `decide +kernel` below evaluates a linear-time Bool checker of `
 it into the quantified statement.
 -/
 namespace ErgVerif.C16
+
+/-! ## what the compiler writes (`Gen.C16Written`: the triples passed to `write_instr` per target, recorded by the hook) -/
+
+/-- Full statement (kept visible; false of the current code, see `C16_written_witness`):
+    every `(enum, variant, byte)` the code generator writes while compiling for target 3.`v` is, by name, that opcode number in
+    CPython 3.`v`. The name is read through `Gen.C16.verAliases v`: for 3.11 the generator deliberately writes
+    `Opcode310::POP_JUMP_IF_FALSE/TRUE` where it means 3.11's `POP_JUMP_FORWARD_IF_FALSE/TRUE` (same numbers; the source says so). -/
+def WrittenGood : Prop :=
+  ∀ v ∈ targets, ∀ r ∈ Gen.C16Written.written v, (canonName (Gen.C16.verAliases v) r.2.1, r.2.2) ∈ Gen.C16.py v
+
+/-- Outside the recorded class `K` = "the variant is `NOT_IMPLEMENTED`" (finding `C16-not-implemented-opcode`) the statement holds. -/
+theorem C16_written_partial :
+    ∀ v ∈ targets, ∀ r ∈ Gen.C16Written.written v, r.2.1 ≠ Gen.C16.notImplemented →
+      (canonName (Gen.C16.verAliases v) r.2.1, r.2.2) ∈ Gen.C16.py v := by
+  have h : (targets.all fun v => (writtenRest Gen.C16.notImplemented (Gen.C16.verAliases v) (Gen.C16Written.written v)
+      (Gen.C16.py v)).isEmpty) = true := by decide +kernel
+  intro v hv
+  exact written_sound (List.all_eq_true.mp h v hv)
+
+/-- Witness of the finding: compiling `print! 7 << 1` (corpus/C16/snippets/shift_not_implemented.er) for 3.11 writes
+    `Opcode311::NOT_IMPLEMENTED` = 255, and 255 is the number of no opcode of CPython 3.11 (the interpreter crashes on it). -/
+theorem C16_written_witness :
+    (∃ r ∈ Gen.C16Written.written 11, r.2.1 = Gen.C16.notImplemented ∧ r.2.2 = 255) ∧
+    ((Gen.C16.py 11).all fun p => p.2 != 255) = true := by decide +kernel
+
+/-- hence the full statement is false -/
+theorem C16_written_full_is_false : ¬ WrittenGood := by
+  intro h
+  obtain ⟨⟨r, hr, _, hb⟩, hall⟩ := C16_written_witness
+  have hm := h 11 (by decide) r hr
+  have := List.all_eq_true.mp hall _ hm
+  simp [hb] at this
+
+/-- Writes whose enum type is erased (`select_load_instr`/`select_store_instr` return a `u8`): the byte is an opcode of
+    CPython 3.`v`, and under the name 3.`v` gives it some erg opcode enum defines it with that number. -/
+theorem C16_written_raw :
+    ∀ v ∈ targets, ∀ p ∈ Gen.C16Written.writtenRaw v,
+      p ∈ Gen.C16.py v ∧ ∃ r ∈ Gen.C16.erg, (r.2.1, r.2.2) = p := by
+  have h : (targets.all fun v => rawOk (Gen.C16Written.writtenRaw v) (Gen.C16.py v)
+      (Gen.C16.erg.map fun r => (r.2.1, r.2.2))) = true := by decide +kernel
+  intro v hv
+  exact raw_sound (List.all_eq_true.mp h v hv)
+
+/-- `CommonOpcode::is_jump_op` (one version-independent list) classifies every opcode written for 3.`v` exactly as
+    `dis.hasjrel ∪ dis.hasjabs` of 3.`v` does — named and bare writes alike. -/
+theorem C16_jumps :
+    ∀ v ∈ targets,
+      (∀ r ∈ Gen.C16Written.written v, isJumpOp r.2.2 = pyIsJump (Gen.C16.hasjrel v) (Gen.C16.hasjabs v) r.2.2) ∧
+      (∀ p ∈ Gen.C16Written.writtenRaw v, isJumpOp p.2 = pyIsJump (Gen.C16.hasjrel v) (Gen.C16.hasjabs v) p.2) := by
+  have h : (targets.all fun v =>
+      jumpsOk isJumpOp (Gen.C16.hasjrel v) (Gen.C16.hasjabs v) (Gen.C16Written.written v) &&
+      jumpsOkRaw isJumpOp (Gen.C16.hasjrel v) (Gen.C16.hasjabs v) (Gen.C16Written.writtenRaw v)) = true := by decide +kernel
+  intro v hv
+  have hv' := List.all_eq_true.mp h v hv
+  simp only [Bool.and_eq_true] at hv'
+  exact ⟨jumps_sound hv'.1, jumpsRaw_sound hv'.2⟩
+
+/-- non-vacuity: the instrumented compile really produced writes for every target, jumps among them -/
+example : (targets.all fun v => decide ((Gen.C16Written.written v).length ≥ 40) &&
+    (Gen.C16Written.written v).any (fun r => isJumpOp r.2.2)) = true := by decide +kernel
 
 /-! ## static tables -/
 
